@@ -677,8 +677,14 @@ func (w *World) doWrite(cs *connState, op *WOp, where string) {
 func (w *World) acceptSync(cs *connState, id, want, n int, err error, what string) {
 	if err != nil {
 		// a failing operation may have put a proper prefix on the wire; the
-		// connection must close
-		cs.failed = &wEntry{id, want}
+		// connection must close. Only the first failure can have written
+		// anything; a parting write inside OnClose that fails wrote nothing the
+		// stream oracle needs to know about (the connection is already down).
+		if cs.inOnClose {
+			cs.tail = append(cs.tail, wEntry{id, want}) // any prefix of it may be on the wire
+		} else if cs.failed == nil {
+			cs.failed = &wEntry{id, want}
+		}
 		cs.peerCause = true
 		w.probes["sync-write-failed"]++
 		return
